@@ -1,6 +1,9 @@
 import PartituraModel.Wire
 import PartituraModel.Model.PianoRollArgs
 import PartituraModel.Model.PianoRollSession
+import PartituraModel.Model.PianoRollFloat
+import PartituraModel.Model.PianoRollDecodeQ
+import PartituraModel.Model.PianoRollKinds
 
 open Wire Model Model.PianoRoll
 
@@ -113,6 +116,44 @@ def denseCols (rows ncols : Nat) (cells : List (Nat × Nat × Int)) : List (List
     if j < m.size then m.modify j (fun col => if p < col.size then col.set! p v else col) else m) empty
   filled.toList.map (·.toList)
 
+/-- dense columns of a sparse list of real-valued cells -/
+def denseColsQ (rows ncols : Nat) (cells : List (Nat × Nat × Rat)) : List (List Rat) :=
+  let empty : Array (Array Rat) := Array.replicate ncols (Array.replicate rows 0)
+  let filled := cells.foldl (fun (m : Array (Array Rat)) (p, j, v) =>
+    if j < m.size then m.modify j (fun col => if p < col.size then col.set! p v else col) else m) empty
+  filled.toList.map (·.toList)
+
+-- ------------------------------------------------------------------ arguments of any kind (round 5)
+
+/-- `-` (not given) | `N` | `B b` | `I i` | `F q` | `S str` | `L xs` -/
+def parsePyVal : P (Option PyVal) := do
+  let t ← tok
+  match t with
+  | "-" => pure none
+  | "N" => pure (some .none)
+  | "B" => do let b ← bool; pure (some (.bool b))
+  | "I" => do let i ← int; pure (some (.int i))
+  | "F" => do let q ← rat; pure (some (.float q))
+  | "S" => do let s ← str; pure (some (.str s))
+  | "L" => do let xs ← list rat; pure (some (.seq xs))
+  | _ => P.fail
+
+def parsePyArgs : P PyArgs := do
+  let tu ← parsePyVal
+  let td ← parsePyVal
+  let oo ← parsePyVal
+  let ns ← parsePyVal
+  let pm ← parsePyVal
+  let tm ← parsePyVal
+  let ri ← parsePyVal
+  let pr ← parsePyVal
+  let rd ← parsePyVal
+  let rs ← parsePyVal
+  let et ← parsePyVal
+  let bi ← parsePyVal
+  pure { timeUnit := tu, timeDiv := td, onsetOnly := oo, noteSep := ns, pitchMargin := pm, timeMargin := tm,
+         returnIdxs := ri, pianoRange := pr, removeDrums := rd, removeSilence := rs, endTime := et, binary := bi }
+
 -- ------------------------------------------------------------------ sessions (round 3)
 
 def parseObj : P ArgObj := do
@@ -188,6 +229,15 @@ def fmtOut : Out → String
 def handle (ts : List String) : String :=
   match ts with
   | "pr" :: rest =>
+    -- the code's arithmetic: binary64 (Model/PianoRollFloat.lean)
+    match run (do let kind ← str; let kw ← parseKw; let arr ← parseArray; pure (kind, kw, arr)) rest with
+    | none => "bad-request"
+    | some (kind, kw, arr) =>
+      match computePianorollKwF kind arr kw with
+      | none => "err"
+      | some (r, retIdx) => fmtRoll r retIdx
+  | "prq" :: rest =>
+    -- the exact-rational model the theorems of Props/C13.lean are about
     match run (do let kind ← str; let kw ← parseKw; let arr ← parseArray; pure (kind, kw, arr)) rest with
     | none => "bad-request"
     | some (kind, kw, arr) =>
@@ -195,6 +245,13 @@ def handle (ts : List String) : String :=
       | none => "err"
       | some (r, retIdx) => fmtRoll r retIdx
   | "pc" :: rest =>
+    match run (do let kind ← str; let kw ← parsePcKw; let arr ← parseArray; pure (kind, kw, arr)) rest with
+    | none => "bad-request"
+    | some (kind, kw, arr) =>
+      match computePcKwF kind arr kw with
+      | none => "err"
+      | some r => fmtPc r
+  | "pcq" :: rest =>
     match run (do let kind ← str; let kw ← parsePcKw; let arr ← parseArray; pure (kind, kw, arr)) rest with
     | none => "bad-request"
     | some (kind, kw, arr) =>
@@ -215,6 +272,27 @@ def handle (ts : List String) : String :=
     | none => "bad-request"
     | some (rows, ncols, td, cells) =>
       match decodeStored rows (denseCols rows ncols cells) td with
+      | none => "err"
+      | some notes =>
+        fmtList (fun (p, on, du, v) => fmtList id [fmtInt p, fmtTime on, fmtTime du, fmtInt v]) notes
+  | "prv" :: rest =>
+    -- arguments of any kind (Model/PianoRollKinds.lean)
+    match run (do let kind ← str; let kw ← parsePyArgs; let arr ← parseArray; pure (kind, kw, arr)) rest with
+    | none => "bad-request"
+    | some (kind, kw, arr) =>
+      match computePianorollPy kind arr kw with
+      | .bad => "not-modelled"
+      | .raise => "err"
+      | .ok none => "err"
+      | .ok (some (r, retIdx)) => fmtRoll r retIdx
+  | "decq" :: rest =>
+    -- real-valued roll (Model/PianoRollDecodeQ.lean)
+    match run (do let rows ← nat; let ncols ← nat; let td ← opt rat
+                  let cells ← list (do let p ← nat; let j ← nat; let v ← rat; pure (p, j, v))
+                  pure (rows, ncols, td, cells)) rest with
+    | none => "bad-request"
+    | some (rows, ncols, td, cells) =>
+      match decodeStoredQ rows (denseColsQ rows ncols cells) td with
       | none => "err"
       | some notes =>
         fmtList (fun (p, on, du, v) => fmtList id [fmtInt p, fmtTime on, fmtTime du, fmtInt v]) notes
